@@ -1,1 +1,266 @@
-fn main() {}
+//! C07 — Snapshots reproduce the store exactly and replace files atomically.
+//!
+//! Parts:
+//!  * `roundtrip`  a store filled through RelationalEngine / GraphEngine / VectorEngine and raw puts
+//!                 (all key classes, all value kinds, the internal graph-tensor and blob-log slabs,
+//!                 sizes 0 .. tens of thousands) is taken through every snapshot form — default file
+//!                 (zstd), uncompressed v3 file, bytes -> SlabRouter::from_bytes, bytes ->
+//!                 restore_from_bytes (into an empty and into a used store), the quantising format —
+//!                 and every slab-level reader plus the engine reads of the reloaded store are compared
+//!                 with the original (floats bitwise; embedding-slab vectors by their documented class).
+//!  * `embdims`    SlabRouter with embedding dimension 4 / 64 / 255 / 256 / 384 / 768: dense, sparse,
+//!                 near-threshold, constant / ramp / low-TT-rank and arbitrary vectors through
+//!                 save_to_file, the uncompressed writer and to_bytes/from_bytes.
+//!  * `kill`       previous snapshot P at a path, new content N saved to the same path in a child
+//!                 process with RLIMIT_FSIZE = L (one L per case: around the header, around |N|, interior);
+//!                 the path must then load as P or N entirely. Writers: save_snapshot,
+//!                 save_v3_uncompressed, save_snapshot_compressed, checkpoint.
+//!  * `kill_all`   the same with every L in 0..=|N|+2 for small snapshots.
+
+mod atomic;
+mod model;
+mod obs;
+
+use model::{build, build_into, content_strategy, size_class, Content, Probes, RawOp};
+use nv_engine::{main_for, scratch, CaseCtx, Fail, PropDef, PropPart, Tier};
+use obs::{observe_engines, observe_router, same_state, state_diff, Cmp, EngObs, Mode, RouterObs};
+use proptest::prelude::*;
+use serde::{Deserialize, Serialize};
+use tensor_store::{SlabRouter, SlabRouterConfig, TensorStore};
+
+#[derive(Clone, Debug, Serialize, Deserialize)]
+struct RtCase {
+    content: Content,
+    /// bit 0 delta_encoding, bit 1 rle_encoding, bit 2 tensor-train mode (if the content allows it),
+    /// bit 3 load with bloom filter
+    sel: u8,
+    /// content of the store that restore_from_bytes overwrites
+    pre: Content,
+}
+
+fn rt_strategy(t: Tier) -> impl Strategy<Value = RtCase> {
+    (content_strategy(t), 0u8..16, model::tiny_content_strategy()).prop_map(|(content, sel, pre)| RtCase { content, sel, pre })
+}
+
+struct Orig<'a> {
+    probes: &'a Probes,
+    r: RouterObs,
+    e: EngObs,
+}
+
+fn compare_store(fmt: &'static str, mode: Mode, loaded: &TensorStore, o: &Orig, ctx: &mut CaseCtx) -> Result<(), Fail> {
+    let n_r = observe_router(loaded.router(), o.probes, false);
+    let mut cmp = Cmp { fmt, mode, ctx, rel_slab_diverged: false, bytes_lossy: false };
+    cmp.router(&o.r, &n_r, o.probes)?;
+    let n_e = observe_engines(loaded, o.probes, false);
+    cmp.engines(&o.e, &n_e)
+}
+
+/// The tensor-train preset of the quantising format fixes one dimension: usable only when every
+/// embedding-like vector (emb: key, or field `_embedding` / `vector`) has that dimension.
+fn tt_eligible(o: &RouterObs) -> bool {
+    // ... and only for vectors in an ordinary numeric range (finite, |v| <= 1e15): the decomposition
+    // works with squared norms in f32
+    let ok = |x: &[f32]| x.len() == 384 && x.iter().all(|c| c.is_finite() && c.abs() <= 1e15);
+    let mut any = false;
+    for (k, f) in &o.kv {
+        for (name, v) in f {
+            let emb_like = k.starts_with("emb:") || name == "_embedding" || name == "vector";
+            if emb_like {
+                if let Some(x) = v.to_dense() {
+                    if !ok(&x) {
+                        return false;
+                    }
+                    any = true;
+                }
+            }
+        }
+    }
+    for v in o.slab.values() {
+        if !ok(v) {
+            return false;
+        }
+        any = true;
+    }
+    any
+}
+
+fn roundtrip(c: &RtCase, ctx: &mut CaseCtx) -> Result<(), Fail> {
+    let b = build(&c.content);
+    let store = &b.store;
+    for cl in &b.probes.classes {
+        ctx.label(format!("class:{cl}"));
+    }
+    ctx.label(size_class(store));
+    ctx.label(format!("data classes:{}", b.probes.classes.len()));
+    if b.probes.classes.len() >= 3 {
+        ctx.set_nontrivial();
+    }
+    let o = Orig { probes: &b.probes, r: observe_router(store.router(), &b.probes, false), e: observe_engines(store, &b.probes, false) };
+    if o.r.rel.values().any(|t| t.rows.iter().any(|_| true)) {
+        ctx.label("relational rows present");
+    }
+    if !o.r.slab.is_empty() {
+        ctx.label("embedding slab populated");
+    }
+    let dir = scratch::Dir::new("c07rt");
+
+    // ---- default file format (zstd)
+    let p = dir.join("default.snap");
+    match store.save_snapshot(&p) {
+        Err(e) => ctx.fail("file:save-failed", format!("save_snapshot failed: {e}"))?,
+        Ok(()) => {
+            let head = std::fs::read(&p).unwrap_or_default();
+            if head.len() < 20 || &head[..4] != b"NEUM" || head[8] & 1 != 1 {
+                ctx.fail("file:header", format!("default snapshot does not start with the documented header (magic NEUM, compressed flag): {:?}", &head[..head.len().min(20)]))?;
+            }
+            let loaded = if c.sel & 8 != 0 {
+                ctx.label("loaded with bloom filter");
+                TensorStore::load_snapshot_with_bloom_filter(&p, 1000, 0.01)
+            } else {
+                TensorStore::load_snapshot(&p)
+            };
+            match loaded {
+                Err(e) => ctx.fail("file:load-failed", format!("load_snapshot of a snapshot just saved failed: {e}"))?,
+                Ok(l) => compare_store("file", Mode::Exact, &l, &o, ctx)?,
+            }
+        },
+    }
+
+    // ---- uncompressed v3 writer
+    let p = dir.join("raw.snap");
+    match tensor_store::snapshot::save_v3_uncompressed(store.router(), &p) {
+        Err(e) => ctx.fail("file-raw:save-failed", format!("save_v3_uncompressed failed: {e}"))?,
+        Ok(()) => {
+            let head = std::fs::read(&p).unwrap_or_default();
+            if head.len() < 20 || &head[..4] != b"NEUM" || head[8] & 1 != 0 {
+                ctx.fail("file-raw:header", format!("uncompressed snapshot header: {:?}", &head[..head.len().min(20)]))?;
+            }
+            match TensorStore::load_snapshot(&p) {
+                Err(e) => ctx.fail("file-raw:load-failed", format!("load_snapshot of an uncompressed snapshot failed: {e}"))?,
+                Ok(l) => compare_store("file-raw", Mode::Exact, &l, &o, ctx)?,
+            }
+        },
+    }
+
+    // ---- bytes form
+    match store.snapshot_bytes() {
+        Err(e) => ctx.fail("bytes:save-failed", format!("snapshot_bytes failed: {e}"))?,
+        Ok(bytes) => {
+            match SlabRouter::from_bytes(&bytes) {
+                Err(e) => ctx.fail("bytes-router:load-failed", format!("SlabRouter::from_bytes failed: {e}"))?,
+                Ok(r) => {
+                    let n_r = observe_router(&r, &b.probes, false);
+                    let mut cmp = Cmp { fmt: "bytes-router", mode: Mode::Exact, ctx, rel_slab_diverged: false, bytes_lossy: false };
+                    cmp.router(&o.r, &n_r, &b.probes)?;
+                },
+            }
+            let fresh = TensorStore::new();
+            match fresh.restore_from_bytes(&bytes) {
+                Err(e) => ctx.fail("bytes-restore:load-failed", format!("restore_from_bytes failed: {e}"))?,
+                Ok(()) => compare_store("bytes-restore", Mode::Exact, &fresh, &o, ctx)?,
+            }
+            let used = TensorStore::new();
+            let _ = build_into(&c.pre, &used);
+            match used.restore_from_bytes(&bytes) {
+                Err(e) => ctx.fail("bytes-restore-used:load-failed", format!("restore_from_bytes into a used store failed: {e}"))?,
+                Ok(()) => compare_store("bytes-restore-used", Mode::Exact, &used, &o, ctx)?,
+            }
+        },
+    }
+
+    // ---- quantising format
+    let tt = c.sel & 4 != 0 && tt_eligible(&o.r);
+    let cfg = tensor_compress::CompressionConfig {
+        tensor_mode: if tt { Some(tensor_compress::TensorMode::TensorTrain(tensor_compress::TTConfig::for_dim(384).map_err(|e| Fail::new("harness", e.to_string()))?)) } else { None },
+        delta_encoding: c.sel & 1 != 0,
+        rle_encoding: c.sel & 2 != 0,
+    };
+    if tt {
+        ctx.label("quant: tensor-train mode");
+    }
+    let p = dir.join("quant.snap");
+    match store.save_snapshot_compressed(&p, cfg) {
+        Err(e) => ctx.fail("quant:save-failed", format!("save_snapshot_compressed failed: {e}"))?,
+        Ok(()) => match TensorStore::load_snapshot_compressed(&p) {
+            Err(e) => ctx.fail("quant:load-failed", format!("load_snapshot_compressed failed: {e}"))?,
+            Ok(l) => compare_store("quant", Mode::Quant { tt }, &l, &o, ctx)?,
+        },
+    }
+
+    // saving is read-only
+    let again = observe_router(store.router(), &b.probes, false);
+    if !same_state(&o.r, &again) {
+        ctx.fail(format!("original-changed-by-saving:{}", obs::diff_component(&o.r, &again)), format!("the original store reads differently after the saves: {}", state_diff(&o.r, &again)))?;
+    }
+    Ok(())
+}
+
+// ------------------------------------------------------------------ embdims
+
+#[derive(Clone, Debug, Serialize, Deserialize)]
+struct DimCase {
+    dim: u8,
+    ops: Vec<RawOp>,
+}
+
+const DIMS: [usize; 6] = [4, 64, 255, 256, 384, 768];
+
+fn dim_strategy(_t: Tier) -> impl Strategy<Value = DimCase> {
+    (0u8..6, model::emb_ops_strategy(10)).prop_map(|(dim, ops)| DimCase { dim, ops })
+}
+
+fn embdims(c: &DimCase, ctx: &mut CaseCtx) -> Result<(), Fail> {
+    let d = DIMS[c.dim as usize % DIMS.len()];
+    let router = SlabRouter::with_config(&SlabRouterConfig { embedding_dim: d, ..SlabRouterConfig::default() });
+    let mut probes = Probes::default();
+    model::apply_raw(&c.ops, &router, false, &mut probes);
+    ctx.label(format!("dim:{d}"));
+    if probes.classes.len() >= 3 {
+        ctx.set_nontrivial();
+    }
+    let o = observe_router(&router, &probes, false);
+    if !probes.tt_claim.is_empty() {
+        ctx.label("vector with bounded TT-rank stored");
+    }
+    let dir = scratch::Dir::new("c07dim");
+    let check = |fmt: &'static str, r: Result<SlabRouter, String>, ctx: &mut CaseCtx| -> Result<(), Fail> {
+        match r {
+            Err(e) => ctx.fail(format!("{fmt}:load-failed"), format!("{fmt}: {e}")),
+            Ok(r) => {
+                let n = observe_router(&r, &probes, false);
+                let mut cmp = Cmp { fmt, mode: Mode::Exact, ctx, rel_slab_diverged: false, bytes_lossy: false };
+                cmp.router(&o, &n, &probes)
+            },
+        }
+    };
+    let p = dir.join("r.snap");
+    check("file", router.save_to_file(&p).map_err(|e| e.to_string()).and_then(|()| SlabRouter::load_from_file(&p).map_err(|e| e.to_string())), ctx)?;
+    let p = dir.join("u.snap");
+    check("file-raw", tensor_store::snapshot::save_v3_uncompressed(&router, &p).map_err(|e| e.to_string()).and_then(|()| SlabRouter::load_from_file(&p).map_err(|e| e.to_string())), ctx)?;
+    check("bytes-router", router.to_bytes().map_err(|e| e.to_string()).and_then(|b| SlabRouter::from_bytes(&b).map_err(|e| e.to_string())), ctx)?;
+    Ok(())
+}
+
+fn main() {
+    main_for(PropDef {
+        id: "C07",
+        level: "fault_enumeration",
+        rule: "roundtrip: a store built through RelationalEngine (tables of 1-6 columns over all 6 column types, NULLs, deletes, updates, indexes), GraphEngine (nodes/edges with all property kinds), VectorEngine and raw puts (12 metadata/graph/table/blob-class keys, 8 emb: keys with slab-dimension and off-dimension vectors, cache keys, deletes, every TensorValue/ScalarValue kind incl. int extremes, NaN/inf/-0.0, empty strings, bytes, sparse vectors, pointers) plus the internal graph-tensor and blob-log slabs; sizes 0, 1, a handful, ~50 and generated bulk (quick <= 600, thorough <= 40 000 entries); each case goes through all five snapshot forms. embdims: SlabRouter with embedding dimension 4/64/255/256/384/768 and up to 10 raw operations. kill: one child save with RLIMIT_FSIZE=L per case (L absolute 0..48, |N|-12..|N|+3, or interior) over 4 writers and 4 path shapes; kill_all: every L in 0..=|N|+2 (snapshots up to 700 bytes quick / 3000 thorough, stratified above). non-trivial = the store holds >= 3 data classes (relational, graph, embeddings, metadata, blobs, cache, graph-tensor, blob-log), or a child save was killed strictly inside the payload (L above the 20-byte header); distinct = distinct generated case",
+        assumptions: vec![
+            "oracle = the store's own readers applied to the original and to the reloaded store: scan+get of every key, embedding slab, metadata copy of _embedding, entity-index keys, relational slab scan_all + schema, graph tensor adjacency and edge data, blob log, RelationalEngine select/get_schema/row_count, GraphEngine get_node/get_edge/neighbors, VectorEngine get_embedding; values compared through canonical bitcode bytes (floats bitwise)",
+            "embedding-slab vectors: dimension < 256 and fewer than half components <= 1e-6: bit-identical; at least half components <= 1e-6 (sparse form): identical except that components with |v| <= 1e-6 may come back as +0.0; dimension >= 256 otherwise (tensor-train): same length, finite if the input was finite, and relative L2 error <= 1e-3 for vectors generated with TT-rank <= 3 (constant, linear ramp, sum of <= 3 separable terms over the documented shapes 4x8x8 / 4x8x12 / 8x8x12) whose largest component is in [1e-2, 1e6]",
+            "quantising format: everything except vector payloads exact; vector payloads numerically equal (representation may change from sparse to dense) without tensor-train mode, within the tensor-train tolerance with it; the tensor-train preset is used only when every embedding-like vector has the preset's dimension (384); field names 'ids'/'*_ids' and ascending integer vectors above 2^63 are not generated/compared (recorded C20 findings)",
+            "crash model: the child process is killed by the kernel (SIGXFSZ) when a file it writes would exceed L bytes; bytes written before that stay (no power-loss / lost-page-cache model, fsync is not observable here)",
+            "crash parts compare the loaded state with the previous / new snapshot as loaded through the same format; GraphEngine's wall-clock _created_at/_updated_at fields are masked there because the child builds the new content at a different time",
+            "entity ids are not compared (not observable through the store API); the compressed size of a snapshot varies by a few bytes between processes (hash-map field order), so |N| is known to the parent only approximately",
+        ],
+        parts: vec![
+            PropPart::new("roundtrip", 6_000, 250_000, rt_strategy, roundtrip).shrink_iters(400).boxed(),
+            PropPart::new("embdims", 6_000, 300_000, dim_strategy, embdims).shrink_iters(600).boxed(),
+            PropPart::new("kill", 4_000, 200_000, atomic::kill_strategy, atomic::kill_check).shrink_iters(150).boxed(),
+            PropPart::new("kill_all", 40, 1_500, atomic::kill_all_strategy, atomic::kill_all_check).shrink_iters(30).boxed(),
+        ],
+        children: vec![("save", Box::new(atomic::child_save))],
+    });
+}
